@@ -13,13 +13,25 @@ macro_rules! kproof_calls {
         #[kani::proof]
         #[kani::unwind($unwind)]
         #[kani::stub(std::hash::RandomState::new, crate::util::stub_random_state_new)]
+        #[kani::stub(alloc::alloc::dealloc, crate::util::stub_dealloc)]
+        #[kani::stub(alloc::alloc::dealloc_nonnull, crate::util::stub_dealloc_nonnull)]
+        #[kani::stub(alloc::alloc::realloc, crate::util::stub_realloc)]
+        #[kani::stub(alloc::alloc::realloc_nonnull, crate::util::stub_realloc_nonnull)]
         #[kani::stub(std::backtrace::Backtrace::capture, crate::util::stub_backtrace_capture)]
         #[kani::stub(alloc::fmt::format, crate::util::stub_format)]
+        #[kani::stub(blots_core::values::Value::stringify, crate::util::stub_stringify)]
+        #[kani::stub(blots_core::units::convert, crate::util::stub_units_convert)]
         #[kani::stub(::anyhow::Error::msg, $mode_msg)]
         #[kani::stub(::anyhow::__private::format_err, $mode_fe)]
         #[kani::stub(std::time::Instant::now, crate::util::stub_instant_now)]
         pub fn $name() $body
     };
+}
+
+/// `map(l, f)` / `filter(l, f)` exactly as the evaluator's Call arm invokes them: FunctionDef::call on
+/// the higher-order built-in, with the function value as an argument
+fn map_like(hof: B, l: Value, f: B, heap: &std::rc::Rc<std::cell::RefCell<blots_core::heap::Heap>>) -> Result<Value, blots_core::error::RuntimeError> {
+    blots_core::functions::FunctionDef::BuiltIn(hof).call(Value::BuiltIn(hof), crate::av![l, Value::BuiltIn(f)], heap.clone(), arena::env(), 0, "")
 }
 
 fn lists_same(a: Value, b: Value, heap: &std::rc::Rc<std::cell::RefCell<blots_core::heap::Heap>>) -> bool {
@@ -34,11 +46,12 @@ macro_rules! c13_via_map {
     ($name:ident, $f:expr, $want:expr) => {
         kproof_calls!(crate::util::stub_anyhow_msg_panic, crate::util::stub_anyhow_format_err_panic, 5, fn $name() {
             let (a, b): (f64, f64) = (kani::any(), kani::any());
+            let l = arena::list_cell(vec![Value::Number(a), Value::Number(b)]);
             let heap = arena::heap();
             let e1 = arena::binop(BinaryOp::Via, arena::list2(num(a), num(b)), Expr::BuiltIn($f));
-            let e2 = arena::call(Expr::BuiltIn(B::Map), arena::args2(arena::list2(num(a), num(b)), Expr::BuiltIn($f)));
             let r1 = evaluate_ast(&e1, heap.clone(), arena::env(), 0, src());
-            let r2 = evaluate_ast(&e2, heap.clone(), arena::env(), 0, src());
+            // map(list, f) as the call `map(l, f)` reaches it: FunctionDef::call on the built-in map
+            let r2 = map_like(B::Map, l, $f, &heap);
             match (r1, r2) {
                 (Ok(v1), Ok(v2)) => {
                     assert!(lists_same(v1, v2, &heap));
@@ -52,7 +65,7 @@ macro_rules! c13_via_map {
                 _ => panic!("via / map failed on numbers"),
             }
             kani::cover!(true, "reach-end");
-            std::mem::forget((e1, e2));
+            std::mem::forget(e1);
             std::mem::forget(heap);
         });
     };
@@ -86,10 +99,10 @@ kproof_calls!(crate::util::stub_anyhow_msg_panic, crate::util::stub_anyhow_forma
 /// `[p, q] where to_bool` == `filter([p, q], to_bool)` (elements kept in order)
 kproof_calls!(crate::util::stub_anyhow_msg_panic, crate::util::stub_anyhow_format_err_panic, 5, fn c13_q_where_filter_to_bool() {
     let (p, q): (bool, bool) = (kani::any(), kani::any());
+    let l = arena::list_cell(vec![Value::Bool(p), Value::Bool(q)]);
     let heap = arena::heap();
     let e1 = arena::binop(BinaryOp::Where, arena::list2(Expr::Bool(p), Expr::Bool(q)), Expr::BuiltIn(B::ToBool));
-    let e2 = arena::call(Expr::BuiltIn(B::Filter), arena::args2(arena::list2(Expr::Bool(p), Expr::Bool(q)), Expr::BuiltIn(B::ToBool)));
-    match (evaluate_ast(&e1, heap.clone(), arena::env(), 0, src()), evaluate_ast(&e2, heap.clone(), arena::env(), 0, src())) {
+    match (evaluate_ast(&e1, heap.clone(), arena::env(), 0, src()), map_like(B::Filter, l, B::ToBool, &heap)) {
         (Ok(v1), Ok(v2)) => {
             assert!(lists_same(v1, v2, &heap));
             match read_list(v1, &heap) {
@@ -103,7 +116,7 @@ kproof_calls!(crate::util::stub_anyhow_msg_panic, crate::util::stub_anyhow_forma
         _ => panic!("where / filter failed on booleans"),
     }
     kani::cover!(p && !q, "reach a mixed list");
-    std::mem::forget((e1, e2));
+    std::mem::forget(e1);
     std::mem::forget(heap);
 });
 
@@ -112,11 +125,53 @@ kproof_calls!(crate::util::stub_anyhow_msg_cut, crate::util::stub_anyhow_format_
     let a: f64 = kani::any();
     let t: bool = kani::any();
     kani::cover!(true, "reach-call");
+    let l = arena::list_cell(vec![Value::Number(a), Value::Bool(t)]);
     let heap = arena::heap();
-    let e1 = arena::binop(BinaryOp::Via, arena::list2(num(a), Expr::Bool(t)), Expr::BuiltIn(B::Abs));
-    let e2 = arena::call(Expr::BuiltIn(B::Map), arena::args2(arena::list2(num(a), Expr::Bool(t)), Expr::BuiltIn(B::Abs)));
-    assert!(evaluate_ast(&e1, heap.clone(), arena::env(), 0, src()).is_err());
-    assert!(evaluate_ast(&e2, heap.clone(), arena::env(), 0, src()).is_err());
-    std::mem::forget((e1, e2));
+    let k: bool = kani::any();
+    // one of the two equivalent forms per path (a type error ends a `cut` path)
+    if k {
+        let e1 = arena::binop(BinaryOp::Via, arena::list2(num(a), Expr::Bool(t)), Expr::BuiltIn(B::Abs));
+        assert!(evaluate_ast(&e1, heap.clone(), arena::env(), 0, src()).is_err());
+        std::mem::forget(e1);
+    } else {
+        assert!(map_like(B::Map, l, B::Abs, &heap).is_err());
+    }
+    std::mem::forget(heap);
+});
+
+/// a predicate that returns a non-boolean makes *both* `where` and `filter` fail
+kproof_calls!(crate::util::stub_anyhow_msg_cut, crate::util::stub_anyhow_format_err_cut, 5, fn c13_q_where_filter_fail_alike_nonbool() {
+    let (a, b): (f64, f64) = (kani::any(), kani::any());
+    kani::cover!(true, "reach-call");
+    let l = arena::list_cell(vec![Value::Number(a), Value::Number(b)]);
+    let heap = arena::heap();
+    let k: bool = kani::any();
+    if k {
+        let e1 = arena::binop(BinaryOp::Where, arena::list2(num(a), num(b)), Expr::BuiltIn(B::Abs));
+        assert!(evaluate_ast(&e1, heap.clone(), arena::env(), 0, src()).is_err());
+        std::mem::forget(e1);
+    } else {
+        assert!(map_like(B::Filter, l, B::Abs, &heap).is_err());
+    }
+    std::mem::forget(heap);
+});
+
+/// the empty list is passed whole too: `[] into len` == len([]) == 0; `[] via abs` == map([], abs) == []
+kproof_calls!(crate::util::stub_anyhow_msg_panic, crate::util::stub_anyhow_format_err_panic, 5, fn c13_q_empty_list_into_via() {
+    let el = arena::list_cell(vec![]);
+    let heap = arena::heap();
+    let e1 = arena::binop(BinaryOp::Into, arena::list0(), Expr::BuiltIn(B::Len));
+    let e2 = arena::call(Expr::BuiltIn(B::Len), arena::args1(arena::list0()));
+    match (evaluate_ast(&e1, heap.clone(), arena::env(), 0, src()), evaluate_ast(&e2, heap.clone(), arena::env(), 0, src())) {
+        (Ok(v1), Ok(v2)) => assert!(same_value(v1, v2) && same_value(v1, Value::Number(0.0))),
+        _ => panic!("[] into len failed"),
+    }
+    let e3 = arena::binop(BinaryOp::Via, arena::list0(), Expr::BuiltIn(B::Abs));
+    match (evaluate_ast(&e3, heap.clone(), arena::env(), 0, src()), map_like(B::Map, el, B::Abs, &heap)) {
+        (Ok(v1), Ok(v2)) => assert!(matches!(read_list(v1, &heap), Some((0, _))) && matches!(read_list(v2, &heap), Some((0, _)))),
+        _ => panic!("[] via abs failed"),
+    }
+    kani::cover!(true, "reach-end");
+    std::mem::forget((e1, e2, e3));
     std::mem::forget(heap);
 });
